@@ -27,7 +27,7 @@ CONFIGS = {
     "AU-rev": [("U", "B", 5, ["N3", "O4", "O2", "C1'", "N1"]), ("A", "A", 9, ["N1", "N6", "N7", "C1'", "N9"])],
     "GG-hoog": [("G", "A", 3, ["N1", "N2", "O6", "N7", "C1'", "N9"]), ("G", "A", 4, ["N1", "O6", "N7", "C1'", "N9"])],
     "AG-sugar": [("A", "A", 1, ["N3", "C2", "O2'", "C1'", "N9"]), ("G", "A", 7, ["N2", "N3", "O2'", "C1'", "N9"])],
-    "bph-G": [("G", "A", 1, ["N1", "N2", "C8", "N3", "C2"]), ("U", "A", 2, ["OP1", "O2'", "O4'"])],
+    "bph-G": [("G", "A", 1, ["N1", "N2", "C8", "N3", "C2"]), ("U", "A", 2, ["OP1", "O2'"])],
     "bph-C": [("C", "A", 5, ["N4", "C5", "N3", "C4"]), ("A", "A", 3, ["OP1", "O5'"])],
     "bph-A": [("A", "B", 1, ["N6", "C2", "N1", "C6"]), ("G", "A", 1, ["OP2", "O2'"])],
 }
@@ -70,7 +70,7 @@ class AbsAngle:
         return "<abstract angle>"
 
 
-def explore(cfg_name, order="fwd"):
+def explore(cfg_name, order="fwd", models=None, model_arg=None):
     """runs the real find_pairs over all abstract geometries of one configuration; returns (eng, paths, info)"""
     import z3
     from symx.engine import Engine, SBool
@@ -94,7 +94,7 @@ def explore(cfg_name, order="fwd"):
             at = Atom(None, None, auth, 1, an, xyz[0], xyz[1], xyz[2], 1.0)
             ats.append(at)
             atom_of_xyz[xyz] = (ri, an)
-        r = Residue3D(None, auth, 1, letter, tuple(ats))
+        r = Residue3D(None, auth, 1 if models is None else models[ri], letter, tuple(ats))
         r.__dict__["base_normal_vector"] = numpy.array([0.0, 0.0, 1.0])
         residues.append(r)
     near = {}
@@ -146,6 +146,7 @@ def explore(cfg_name, order="fwd"):
 
     def fake_torsion(a1, a2, a3, a4):
         key = tuple((x.auth.chain, x.auth.number, x.name) for x in (a1, a2, a3, a4))
+        key = min(key, key[::-1])          # a dihedral does not change when the point order is reversed (C18)
         if key not in torsions:
             t = eng.real(f"torsion_{len(torsions)}")
             eng.assume(t.e > -180, t.e <= 180, t.e != 90, t.e != -90)
@@ -159,9 +160,47 @@ def explore(cfg_name, order="fwd"):
     A.KDTree, A.angle_between_vectors, A.torsion_angle, A.math = KD, fake_angle, fake_torsion, Shim()
 
     def run():
-        return A.find_pairs(Structure3D(list(residues)))
+        return A.find_pairs(Structure3D(list(residues)), model_arg)
     try:
         paths = eng.explore(run, maxpaths=60000)
     finally:
         A.KDTree, A.angle_between_vectors, A.torsion_angle, A.math = saved
     return eng, paths, {"residues": residues, "near": near, "angle_ok": angle_ok, "torsions": torsions, "cfg": cfg}
+
+
+# ------------------------------------------------------------------------------------------------- analysis
+def contacts_of(info):
+    """all cross-residue donor/acceptor candidate contacts of the configuration with their z3 predicates"""
+    import z3
+    spec = load_spec()
+    cfg = info["cfg"]
+    out = []
+    atoms = [(ri, an) for ri, (_, _, _, names) in enumerate(cfg) for an in names]
+
+    def kind(a):
+        letter = cfg[a[0]][0]
+        acc = spec["BASE_ACCEPTORS"].get(letter, []) + spec["RIBOSE_ACCEPTORS"] + spec["PHOSPHATE_ACCEPTORS"]
+        return "acceptor" if a[1] in acc else ("donor" if a[1] in spec["BASE_DONORS"].get(letter, []) else None)
+    for a, b in itertools.combinations(atoms, 2):
+        if a[0] == b[0] or kind(a) is None or kind(b) is None or kind(a) == kind(b):
+            continue
+        key = tuple(sorted((a, b)))
+
+        def var(d, k, name):
+            if k not in d:
+                d[k] = z3.Bool(name)
+            return d[k]
+        near = var(info["near"], key, f"near_{key[0][0]}{key[0][1]}_{key[1][0]}{key[1][1]}")
+        oks = [var(info["angle_ok"], (key, r), f"angle_{key[0][0]}{key[0][1]}_{key[1][0]}{key[1][1]}_n{r}") for r in (key[0][0], key[1][0])]
+        donor, acceptor = (a, b) if kind(a) == "donor" else (b, a)
+        out.append({"key": key, "near": near, "accepted": z3.And(near, *oks), "donor": donor, "acceptor": acceptor,
+                    "edges": {key[0][0]: spec["BASE_EDGES"].get(cfg[key[0][0]][0], {}).get(key[0][1]),
+                              key[1][0]: spec["BASE_EDGES"].get(cfg[key[1][0]][0], {}).get(key[1][1])}})
+    return out
+
+
+def tables_match_spec():
+    import rnapolis.tertiary as T
+    spec = load_spec()
+    cur = dump_spec_from_repo()
+    return [k for k in spec if json.loads(json.dumps(cur[k])) != spec[k]]
